@@ -72,6 +72,8 @@ def edge_binding(inst: Instance) -> dict[tuple[str, str, str], str | int]:
 def _body_of(t: str, none_tasks: frozenset[str]):
     """none_tasks entries: "a" -> task a returns None; "~a" -> task a returns falsy non-None values; "@a" -> a value of a type with
     a registered custom serde; "^a" -> a value of an unregistered SUBCLASS of that type"""
+    if "&" + t in none_tasks:
+        return bodies.tagged_body        # a second type with its own registered serde
     if "@" + t in none_tasks:
         return bodies.boxed_body
     if "^" + t in none_tasks:
@@ -118,9 +120,11 @@ def mkjob(inst: Instance, none_tasks: frozenset[str] = frozenset()) -> JobInstan
         edges.append(Task2TaskEdge(source=DatasetId(s, o), sink_task=d, sink_input_kw=f"dup{n}", sink_input_ps=None))
         tasks[d].static_input_kw[f"dup{n}"] = f"default-dup{n}"
     serdes = {}
-    if any(x[:1] in "@^" for x in none_tasks):
+    if any(x[:1] in "@^&" for x in none_tasks):
         from cascade.low.core import type_enc
-        serdes = {type_enc(bodies.Boxed): ("harness.sim.bodies.ser_boxed", "harness.sim.bodies.des_boxed")}
+        # registration order matters to nobody: each type keeps its own serialiser
+        serdes = {type_enc(bodies.Boxed): ("harness.sim.bodies.ser_boxed", "harness.sim.bodies.des_boxed"),
+                  type_enc(bodies.Tagged): ("harness.sim.bodies.ser_tagged", "harness.sim.bodies.des_tagged")}
     return JobInstance(tasks=tasks, edges=edges, ext_outputs=[DatasetId(t, o) for t, o in inst.ext], serdes=serdes)
 
 
